@@ -3,6 +3,7 @@ package main
 import (
 	"bytes"
 	"context"
+	"encoding/json"
 	"fmt"
 	"os"
 	"path/filepath"
@@ -111,7 +112,25 @@ func runLoadSeq(c Case) interface{} {
 		case "break":
 			p := filepath.Join(eng.Dir, "template", "page", op["name"].(string)+".ast.json")
 			os.MkdirAll(filepath.Dir(p), 0o755)
-			os.WriteFile(p, []byte("{ this is not json"), 0o644)
+			// the ways a template file is broken in practice: not JSON at all, cut short, empty, a new version APPENDED to the old
+			// one (two documents), the stale tail of a longer previous version behind the closing brace
+			cur, _ := os.ReadFile(p)
+			if len(cur) == 0 || !json.Valid(cur) {
+				writeTpl(eng.Dir, op["name"].(string), "older")
+				cur, _ = os.ReadFile(p)
+			}
+			switch op["how"] {
+			case "truncated":
+				os.WriteFile(p, cur[:len(cur)/2], 0o644)
+			case "empty":
+				os.WriteFile(p, nil, 0o644)
+			case "two-documents":
+				os.WriteFile(p, append(append(append([]byte{}, cur...), '\n'), cur...), 0o644)
+			case "stale-tail":
+				os.WriteFile(p, append(append([]byte{}, cur...), []byte(`,"line":1}]}`)...), 0o644)
+			default:
+				os.WriteFile(p, []byte("{ this is not json"), 0o644)
+			}
 			results = append(results, "done")
 		case "remove":
 			os.Remove(filepath.Join(eng.Dir, "template", "page", op["name"].(string)+".ast.json"))
@@ -127,6 +146,8 @@ func runLoadSeq(c Case) interface{} {
 	}
 	return J{"class": "ok", "results": results}
 }
+
+var c10breaks = []string{"garbage", "truncated", "empty", "two-documents", "stale-tail", "two-documents"}
 
 // ---- hook-driven scheduler ----
 
@@ -325,7 +346,7 @@ func genC10(r *Rng, n int, tier string, emit func(Case)) {
 					nm := c10names[rr.Intn(len(c10names))]
 					ops = append(ops, J{"op": "write", "name": nm, "content": fmt.Sprintf("v%d-%s", ver, nm)})
 				case 6:
-					ops = append(ops, J{"op": "break", "name": present[rr.Intn(len(present))]})
+					ops = append(ops, J{"op": "break", "name": present[rr.Intn(len(present))], "how": c10breaks[rr.Intn(len(c10breaks))]})
 				case 7:
 					ver++
 					nm := present[rr.Intn(len(present))]
@@ -359,7 +380,7 @@ func genC10(r *Rng, n int, tier string, emit func(Case)) {
 				if rr.Bool() {
 					ops = append(ops, J{"op": "render", "name": anyName()})
 				}
-				ops = append(ops, J{"op": "break", "name": p})
+				ops = append(ops, J{"op": "break", "name": p, "how": c10breaks[rr.Intn(len(c10breaks))]})
 				for k := 0; k < rr.Range(1, 2); k++ {
 					if rr.Bool() {
 						ops = append(ops, J{"op": "load", "filter": filt()})
